@@ -19,13 +19,14 @@ func (urlTree *URLTree[T]) Traversal(url string) LookupFlowResult[T] {
 
 func lookupFlow[T any](urlTree *URLTree[T], url string) lookupFlowNodeResult[T] {
 	splitURL := splitURL(url)
-	lookUpLength := len(splitURL) - 1
 	currentNode := urlTree.Root
 	flows := []T{}
-	index := 0
+	// true only when every part of the URL was consumed: a walk that stops early
+	// (also at the last part) did not reach the node of this URL
+	matchedAllParts := true
 
 	var part urlPart
-	for index, part = range splitURL {
+	for _, part = range splitURL {
 		log.Trace().Msgf("lookupFlowNodeResult::Looking up part %v", part)
 		if currentNode.WildcardChild != nil && currentNode.WildcardChild.hasValue() {
 			flows = append(flows, *currentNode.WildcardChild.Value)
@@ -44,16 +45,20 @@ func lookupFlow[T any](urlTree *URLTree[T], url string) lookupFlowNodeResult[T] 
 			continue
 		}
 
+		matchedAllParts = false
 		break
 	}
 
-	if index == lookUpLength && currentNode.hasValue() && currentNode.WildcardChild == nil {
-		flows = append(flows, *currentNode.Value)
-	} else if index == lookUpLength && part.IsPartOfHost &&
-		currentNode.WildcardChild != nil && currentNode.WildcardChild.hasValue() {
-		// case where url is host without path and filter ends with a wildcard, for example:
-		// url: "host.com", filter: "host.com/*"
-		flows = append(flows, *currentNode.WildcardChild.Value)
+	if matchedAllParts {
+		if currentNode.hasValue() {
+			flows = append(flows, *currentNode.Value)
+		}
+		if part.IsPartOfHost &&
+			currentNode.WildcardChild != nil && currentNode.WildcardChild.hasValue() {
+			// case where url is host without path and filter ends with a wildcard, for example:
+			// url: "host.com", filter: "host.com/*"
+			flows = append(flows, *currentNode.WildcardChild.Value)
+		}
 	}
 
 	for _, flow := range flows {
